@@ -40,6 +40,10 @@ type call struct {
 //	'p' prompt reader: receives until its channel is closed, never leaves
 //	's' slow reader: receives k values, stops reading, cancels its context at leaveAt
 //	'x' stalled: never reads; cancels its context at leaveAt
+//	'n' never reads and never cancels. Inside the property only while no
+//	    delivery has to wait for it, i.e. with at most buffer-many events
+//	    outstanding for it: Batch, Subscribe and Close must still return and its
+//	    channel is closed after Close
 //	'q' prompt reader that cancels its context at leaveAt (keeps reading until
 //	    its channel is closed)
 //	'r' slow reader that stays: receives k values, pauses until leaveAt, then
@@ -75,7 +79,7 @@ func (s scen) name() string {
 		if x.kind == 's' || x.kind == 'r' {
 			t += fmt.Sprint(x.k)
 		}
-		if x.kind != 'p' {
+		if x.kind != 'p' && x.kind != 'n' {
 			t += fmt.Sprint("@", x.leaveAt)
 		}
 		if x.lateAt > 0 {
@@ -623,6 +627,7 @@ const (
 	classRace     = "batcher/prompt-subscribers-race"
 	classLeave    = "batcher/execute-wedges-on-departed-subscriber"
 	classDuring   = "batcher/departure-during-delivery"
+	classStall    = "batcher/close-with-stalled-subscriber"
 )
 
 func classOf(s scen) string {
@@ -811,11 +816,26 @@ func scaledScenarios() []hx.Scenario {
 			}
 		}
 	}
+	// (F) Close with a subscriber that neither reads nor cancels and at most
+	// buffer-many (2) events delivered to it (deliveries at 10 / 14 ms); Close
+	// at 5 ms (before any delivery), 12 ms (between / after the first) or 17 ms
+	// (after all): Batch, Subscribe and Close return, its channel is closed
+	for di, d := range []string{"a0", "a0 b0", "a0 b4"} {
+		n := sub{kind: 'n'}
+		for si, ss := range [][]sub{{n}, {n, p}, {p, n}, {n, pLate}, {n, n}, {n, {kind: 'x', leaveAt: 25}}} {
+			for _, c := range []int{5, 12, 17} {
+				for _, tl := range []bool{false, true} {
+					quick := !tl && si <= 1 && (di == 1 || c == 17)
+					add(scen{prods: [][]call{parse(1, d)}, subs: ss, closeAt: c, timeline: tl, class: classStall}, 2, 4, !quick)
+				}
+			}
+		}
+	}
 	// shards are handed out in list order and a part that runs out of budget
 	// skips the tail: the departing-subscriber families go first
 	rank := func(c string) int {
 		switch c {
-		case classDuring:
+		case classDuring, classStall:
 			return 0
 		case classLeave:
 			return 1
@@ -853,6 +873,22 @@ func trueSizeScenarios(capacity int) []hx.Scenario {
 				})
 			}
 		}
+	}
+	// a subscriber that neither reads nor cancels with exactly the real buffer
+	// (50) outstanding: Batch and Close return, its channel is closed
+	var full []call
+	for i := 0; i < capacity; i++ {
+		full = append(full, call{key: fmt.Sprintf("k%02d", i), val: i + 1})
+	}
+	for si, ss := range [][]sub{{{kind: 'n'}}, {{kind: 'n'}, p}} {
+		s := scen{prods: [][]call{full}, subs: ss, closeAt: 30, label: fmt.Sprintf("k00..k%02d", capacity-1), class: classStall}
+		scn := s
+		out = append(out, hx.Scenario{
+			Name:  fmt.Sprintf("cap%d %s", capacity, s.name()),
+			Class: classOf(s), ThoroughOnly: si > 0,
+			Opts: opts(s, 1, 1),
+			Mk:   func() *mc.Exec { return mkExec(scn) },
+		})
 	}
 	return out
 }
